@@ -232,6 +232,21 @@ def cancelled_requests():
     return out
 
 
+def display():
+    """a client reads what the object displays (statement, get_source, get_source_line) at every point of resets that
+    overlap: a reset held at one of its hooks (it holds the lifecycle lock), a second reset waiting behind it; then a
+    run: what it executes must be what every reporting call shows when it starts (C14)"""
+    out = []
+    for hook in ('reset', 'on_change_script', 'on_initialize_run', 'on_change_state'):
+        for frm in ('initialized', 'finished'):
+            steps = START + (one_run() if frm == 'finished' else []) + [['peek']] + \
+                [['hold', hook], ['call', 'A', 'reset', {'statement': 'B'}], settle(0.2), ['peek'],
+                 ['call', 'B', 'reset', {'statement': 'C'}], settle(0.2), ['peek'], ['release_all'], settle(0.3), ['peek']] + \
+                one_run('C') + [['peek'], ['call', 'C', 'reset', {'statement': 'D'}], settle(), ['peek']] + one_run('C') + [['sample']]
+            out.append(S(steps, dict(family='display', gate=hook, frm=frm)))
+    return out
+
+
 def numbering():
     """histories of reset (with every kind of option, including restarting the numbering at the value
     already in effect) and run; C14's oracle checks each reset's own re-initialisation"""
